@@ -99,27 +99,42 @@ def run(ctx):
                             ctx.violation('%s %s is not shift-equivariant (shift %s, defect %.3g, %dx%d)' % (api, name, (s, t), d, n, m),
                                           dict(rec, shift=[s, t]), {'api': api, 'method': name, 'what': 'shift_equivariance'})
 
-    # ---- propagator.__call__ (forward model object)
+    # ---- propagator.__call__ (forward model object): default binary and non-binary apertures, first and repeated calls on one object
     import odak.learn.wave as LW
     for ptype in ('forward', 'back and forth'):
-        for method in ('conventional',):
+        for apkind in ('default', 'nonbinary', 'binary_random'):
             n, m = rng.choice([(6, 6), (5, 7), (8, 6)])
             lam, dxp = 0.5, 0.8
+            if apkind == 'default':
+                ap = None
+            elif apkind == 'nonbinary':
+                ap = torch.tensor([[rng.uniform(0.2, 1.0) for _ in range(m)] for _ in range(n)])
+            else:
+                ap = torch.tensor([[1.0 if rng.random() < 0.7 else 0.0 for _ in range(m)] for _ in range(n)])
             prop = LW.propagator(resolution=[n, m], wavelengths=[lam, lam * 1.2], pixel_pitch=dxp, number_of_frames=1,
                                  number_of_depth_layers=2, volume_depth=2.0, image_location_offset=1.0,
                                  propagation_type='Bandlimited Angular Spectrum', propagator_type=ptype,
-                                 back_and_forth_distance=3.0, laser_channel_power=None, aperture=None, aperture_size=None,
-                                 method=method, device=torch.device('cpu'))
+                                 back_and_forth_distance=3.0, laser_channel_power=None, aperture=ap, aperture_size=None,
+                                 method='conventional', device=torch.device('cpu'))
             u, v = W.rand_field(rng, n, m, 'gauss'), W.rand_field(rng, n, m, 'gauss')
             a, b = complex(rng.gauss(0, 1), rng.gauss(0, 1)), complex(rng.gauss(0, 1), rng.gauss(0, 1))
             f = lambda x: prop(torch.from_numpy(x).to(torch.complex64), channel_id=1, depth_id=1).detach().numpy().astype(np.complex128)
-            fu, fv, fw = f(u), f(v), f(a * u + b * v)
-            ctx.case(('propagator', ptype, n, m), True)
+            # order matters: the first call builds the kernel, the later ones read the cache
+            fw, fu, fv = f(a * u + b * v), f(u), f(v)
+            fw2 = f(a * u + b * v)
+            f0 = f(np.zeros((n, m), dtype=np.complex128))
+            ctx.case(('propagator', ptype, apkind, n, m), True)
+            ctx.count('propagator/%s/%s' % (ptype, apkind))
             scale = max(1e-12, float(np.max(np.abs(fu))), float(np.max(np.abs(fv))))
-            d = W.maxdiff(fw, a * fu + b * fv) / scale
+            d = max(W.maxdiff(fw, a * fu + b * fv), W.maxdiff(fw2, a * fu + b * fv)) / scale
+            rec = {'ptype': ptype, 'aperture': apkind, 'n': n, 'm': m, 'seed': ctx.seed}
             if not d <= 5e-3:
-                ctx.violation('propagator.__call__ (%s) is not linear: defect %.3g' % (ptype, d),
-                              {'ptype': ptype, 'n': n, 'm': m, 'seed': ctx.seed}, {'api': 'torch', 'method': 'propagator', 'what': 'superposition'})
+                ctx.violation('propagator.__call__ (%s, %s aperture) is not linear across calls on one object: defect %.3g' % (ptype, apkind, d),
+                              rec, {'api': 'torch', 'method': 'propagator', 'what': 'superposition', 'aperture': apkind})
+            if not np.max(np.abs(f0)) <= 1e-12:
+                ctx.violation('propagator.__call__ maps the zero field to a non-zero field', rec, {'api': 'torch', 'method': 'propagator', 'what': 'zero_to_zero'})
+            s_, t_ = rng.randrange(0, n), rng.randrange(0, m)
+            # the propagator pads spatially, so shift-equivariance holds for fields supported away from the border only: not checked here
 
 
 def replay(ctx, rep):
